@@ -1,9 +1,91 @@
 import NmVerif.Proto
+import NmVerif.Containers.Core
+import NmVerif.Containers.Spec
+import NmVerif.Containers.Vector
+/-
+  Driver for C19: `hist kind=<vec|…> elem=<int|double> ops=<op>;<op>;…` runs the history on the MODEL and prints,
+  after every operation, the client-visible state of slots 0 and 1 (spec part), the internal state
+  (capacity, cells beyond size, ledger counters) and, at the end — after destroying what is still alive —
+  the ledger balance.   `ok S1|S2|… # I1|I2|… # leak=n`
+-/
 namespace NmVerif.Driver.C19
-open NmVerif NmVerif.Proto
+open NmVerif NmVerif.Proto NmVerif.Containers
 
-def handle : Handler := fun op _args =>
+def parseOp (s : String) : Option (Op Int) :=
+  match s.splitOn ":" with
+  | ["ctor", a] => do pure (.ctor (← a.toNat?))
+  | ["ctorN", a, n] => do pure (.ctorN (← a.toNat?) (← n.toNat?))
+  | "ctorV" :: a :: vs => do pure (.ctorV (← a.toNat?) (← vs.mapM (·.toInt?)))
+  | ["copy", d, a] => do pure (.copy (← d.toNat?) (← a.toNat?))
+  | ["assign", d, a] => do pure (.assign (← d.toNat?) (← a.toNat?))
+  | ["push", a, v] => do pure (.push (← a.toNat?) (← v.toInt?))
+  | ["pushAt", a, i] => do pure (.pushAt (← a.toNat?) (← i.toNat?))
+  | ["resize", a, n] => do pure (.resize (← a.toNat?) (← n.toNat?))
+  | ["write", a, i, v] => do pure (.write (← a.toNat?) (← i.toNat?) (← v.toInt?))
+  | ["read", a, i] => do pure (.read (← a.toNat?) (← i.toNat?))
+  | ["destroy", a] => do pure (.destroy (← a.toNat?))
+  | _ => none
+
+def parseOps (s : String) : Option (List (Op Int)) :=
+  if s == "[]" || s == "" then some [] else (s.splitOn ";").mapM parseOp
+
+def fmtCell : Cell Int → String
+  | some v => toString v
+  | none => "u"
+
+def fmtCells (l : List (Cell Int)) : String := ",".intercalate (l.map fmtCell)
+
+def nSlots : Nat := 2
+
+/-- spec part of one step -/
+def fmtObjs (I : Impl σ Int) (w : World σ) : String :=
+  "/".intercalate ((List.range nSlots).map fun k =>
+    match w.objs k with
+    | none => "-"
+    | some x => s!"{I.size x}:{fmtCells (I.view x)}")
+
+def fmtInternals (intern : σ → String) (w : World σ) : String :=
+  "/".intercalate ((List.range nSlots).map fun k =>
+    match w.objs k with
+    | none => "-"
+    | some x => intern x) ++ s!";a={w.led.allocs},f={w.led.freed.length}"
+
+/-- value a `read` returns -/
+def readNote (I : Impl σ Int) (w : World σ) : Op Int → String
+  | .read s i =>
+    match w.objs s with
+    | some x => " r=" ++ fmtCell (I.read x i w.led).1
+    | none => ""
+  | _ => ""
+
+def trace (I : Impl σ Int) (intern : σ → String) (ops : List (Op Int)) : String :=
+  let rec go (w : World σ) (ops : List (Op Int)) (accS accI : List String) : World σ × List String × List String :=
+    match ops with
+    | [] => (w, accS.reverse, accI.reverse)
+    | op :: rest =>
+      let valid := Op.valid I w op
+      let w' := step I w op
+      let s := fmtObjs I w' ++ (if valid then readNote I w op else "!")
+      go w' rest (s :: accS) (fmtInternals intern w' :: accI)
+  let (w, ss, is) := go World.empty ops [] []
+  -- end of history: destroy what is still alive
+  let wEnd := run I w ((List.range nSlots).map Op.destroy)
+  let L := wEnd.led
+  let badFree := L.freed.length - L.freed.eraseDups.length + (L.freed.filter (fun b => decide (L.allocs ≤ b))).length
+  let badLife := (L.events.filter (fun e => e == .uninitAssign || e == .overLive || e == .destroyDead)).length
+  let fin := s!"leak={(L.allocs : Int) - L.freed.length} live={(L.ctors : Int) - L.dtors} bad={badFree + badLife}"
+  s!"ok {"|".intercalate ss} # {"|".intercalate is} # {fin}"
+
+def vecIntern (v : Vec Int) : String := s!"{v.cap}:{fmtCells (v.cells.drop v.size)}"
+
+def handle : Handler := fun op a =>
   match op with
+  | "hist" => orBad do
+      let kind ← a.get? "kind"
+      let ops ← (a.get? "ops").bind parseOps
+      match kind with
+      | "vec" => pure (trace (vecImpl Int) vecIntern ops)
+      | _ => none
   | _ => none
 
 end NmVerif.Driver.C19
